@@ -927,6 +927,131 @@ def worker_clients(seed, tier):
     with dask.config.set(scheduler='threads', num_workers=4):
         race('DaskGeoDataFrame.cx (threads scheduler)', lambda: dd.from_pandas(GeoDataFrame(df0), npartitions=4),
              lambda d: d.cx[box[0]:box[2], box[1]:box[3]].compute(), lambda r: sorted(r['id'].tolist()))
+    # ---- concurrent sjoin on SHARED frames (same left / right frame; column subsets of one
+    # frame, which share its Index object) ----
+    import pandas as pd
+    from spatialpandas import sjoin
+
+    def frame_face(f):
+        return (type(f).__name__, list(f.index.names), [str(c) for c in f.columns], len(f))
+
+    def sj_canon(r):
+        cols_ = [str(c) for c in r.columns]
+        pairs = r[['id', 'rid']].astype('float64').fillna(-1.0).values.tolist() if 'id' in cols_ and 'rid' in cols_ else []
+        return [type(r).__name__, list(r.index.names), cols_, _h(sorted(map(tuple, pairs)))]
+
+    def index_variant(f, kind, tag):
+        f = f.copy()
+        if kind == 'named':
+            f.index = pd.Index(np.arange(len(f)) * 3 + 1, name=f'{tag}_idx')
+        elif kind == 'multi':
+            f.index = pd.MultiIndex.from_arrays([np.arange(len(f)) // 7, np.arange(len(f)) % 7],
+                                                names=[f'{tag}_hi', f'{tag}_lo'])
+        return f
+    left0 = GeoDataFrame({'id': df0['id'].values, 'pt': df0['pt'].array, 'a': np.arange(len(df0)) % 5})
+    hows = ['inner', 'left', 'right']
+    for kind in ('unnamed', 'named', 'multi'):
+        for sharing in ('same-frames', 'column-subsets'):
+            name = f'sjoin x8 threads ({kind} index, {sharing})'
+            L = index_variant(left0, kind, 'l')
+            R = index_variant(right, kind, 'r')
+
+            def one(i, how):
+                l_, r_ = (L, R) if sharing == 'same-frames' else (L[['pt', 'id']], R[['geometry', 'rid']])
+                return sj_canon(sjoin(l_, r_, how=how))
+            expected = {h: one(0, h) for h in hows}
+            faces = (frame_face(L), frame_face(R))
+            for rd in range(2 if tier == 'quick' else 10):
+                bar = threading.Barrier(N)
+                got = [None] * N
+
+                def client(i):
+                    try:
+                        bar.wait()
+                        out_ = []
+                        for k in range(4):
+                            h = hows[(i + k) % 3]
+                            out_.append((h, one(i, h)))
+                        got[i] = ('ok', out_)
+                    except Exception as e:  # noqa: BLE001
+                        got[i] = ('raised', f'{type(e).__name__}: {str(e)[:120]}')
+                ths = [threading.Thread(target=client, args=(i,)) for i in range(N)]
+                for t in ths:
+                    t.start()
+                for t in ths:
+                    t.join()
+                counts[name] = counts.get(name, 0) + 1
+                bad = [g for g in got if g[0] != 'ok' or any(v != expected[h] for h, v in g[1])]
+                after = (frame_face(L), frame_face(R))
+                if bad or after != faces:
+                    failures.append({'object': name, 'round': rd,
+                                     'expected': str(expected['inner'])[:200],
+                                     'got': [str(b)[:300] for b in bad[:2]] +
+                                            ([f'the callers\' frames changed: {faces} -> {after}'] if after != faces else [])})
+                    break
+
+    # ---- two pack_partitions_to_parquet computations overlapping in one process and sharing a
+    # tempdir_format with {uuid}: same files / rows as the two packs run one after the other ----
+    dfB, _rb = make_frames(300, 23)
+    dfB = dfB.assign(id=dfB['id'] + 100000)
+    scratch = tempfile.mkdtemp(prefix='sp_c18_pack2_')
+    try:
+        def pack_one(frame, path, fmt, fs_seed):
+            fs = DelayFS.make(fs_seed, 0.002, slow_unit=0.02)
+            kw = {'_retry_args': dict(wait_exponential_multiplier=1, wait_exponential_max=20,
+                                      stop_max_attempt_number=6)}
+            ddf = dd.from_pandas(frame, npartitions=4)
+            try:
+                ddf.pack_partitions_to_parquet(path, filesystem=fs, npartitions=3, p=10, tempdir_format=fmt, **kw)
+            except TypeError:
+                ddf.pack_partitions_to_parquet(path, filesystem=fs, npartitions=3, p=10, tempdir_format=fmt)
+
+        def dataset_face(path):
+            from spatialpandas.io import read_parquet
+            files = sorted(os.path.relpath(os.path.join(dp, f), path) for dp, _dn, fn in os.walk(path) for f in fn)
+            rows = {f: read_parquet(os.path.join(path, f))['id'].tolist() for f in files if f.startswith('part.')}
+            return [files, rows]
+
+        def leftovers(root):
+            return sorted(os.path.relpath(os.path.join(dp, f), root) for dp, _dn, fn in os.walk(root) for f in fn)
+
+        def run_two(tag, concurrent):
+            base = os.path.join(scratch, tag)
+            tmproot = os.path.join(base, 'tmp')
+            os.makedirs(tmproot)
+            fmt = os.path.join(tmproot, '{uuid}', 'part-{partition}')
+            pa_, pb_ = os.path.join(base, 'A.parq'), os.path.join(base, 'B.parq')
+            errs = []
+
+            def job(frame, path, seed_):
+                try:
+                    pack_one(frame, path, fmt, seed_)
+                except Exception as e:  # noqa: BLE001
+                    errs.append(f'{type(e).__name__}: {str(e)[:160]}')
+            if concurrent:
+                ths = [threading.Thread(target=job, args=(df0, pa_, 1)), threading.Thread(target=job, args=(dfB, pb_, 2))]
+                for t in ths:
+                    t.start()
+                for t in ths:
+                    t.join()
+            else:
+                job(df0, pa_, 1)
+                job(dfB, pb_, 2)
+            if errs:
+                return ('raised', errs)
+            return ('ok', _h([dataset_face(pa_), dataset_face(pb_), leftovers(tmproot)]))
+        with dask.config.set(scheduler='threads', num_workers=2):
+            want = run_two('seq', False)
+            name = 'two overlapping pack_partitions_to_parquet sharing a {uuid} tempdir_format'
+            for rd in range(2 if tier == 'quick' else 6):
+                got2 = run_two(f'conc{rd}', True)
+                counts[name] = counts.get(name, 0) + 1
+                if got2 != want or want[0] != 'ok':
+                    failures.append({'object': name, 'round': rd, 'expected': str(want)[:200], 'got': [str(got2)[:400]]})
+                    break
+    finally:
+        shutil.rmtree(scratch, ignore_errors=True)
+
     return {'failures': failures, 'counts': counts, 'clients': N, 'schedules': schedules,
             'dask_internal': dask_internal, 'spy_unavailable': spy_unavailable}
 
